@@ -1,10 +1,12 @@
 package work
 
 import (
+	"bytes"
 	"fmt"
 	"math/rand"
 	"reflect"
 	"runtime"
+	"strings"
 	"sync"
 	"sync/atomic"
 
@@ -180,6 +182,16 @@ func buildCorpus(seed int64, env *Env, tm map[string]reflect.Type, nm map[string
 				corpus = append(corpus, corpusEntry{wire: m, what: "decode flipped " + e.Name})
 			}
 		}
+	}
+	// chunked strings and byte arrays (anything that could tempt an implementation into shared scratch buffers)
+	for k := 0; k < 6; k++ {
+		sv := &zoo.Scalars{S: strings.Repeat(string(rune('a'+k)), 2100+500*k), Bin: bytes.Repeat([]byte{byte(k)}, 5000+k)}
+		corpus = append(corpus, corpusEntry{encode: true, val: sv, what: "encode long string"})
+		if b, err := hessian.ToBytes(sv, copyNames(nm)); err == nil {
+			corpus = append(corpus, corpusEntry{wire: b, what: "decode long string"})
+		}
+		ls := strings.Repeat(string(rune('A'+k)), 3000)
+		corpus = append(corpus, corpusEntry{encode: true, val: ls, what: "encode top-level long string"})
 	}
 	for k := 0; k < 40; k++ {
 		g := make([]byte, 1+r.Intn(24))
